@@ -16,5 +16,7 @@ INVARIANT LawJaccardExtremes
 INVARIANT LawDistinctTerms
 INVARIANT LawTermNamesFunction
 INVARIANT ImplMapRefinesReq
+INVARIANT LawEvaluatedClips
+INVARIANT LawExtrasWellFormed
 INVARIANT LawComputed
 CHECK_DEADLOCK FALSE
